@@ -7,6 +7,7 @@ import Edn.Spec.Renders
 import Edn.Proofs.Fuel
 import Edn.Proofs.Number
 import Edn.Proofs.Scan
+import Edn.Proofs.CompleteNumAux1
 
 namespace Edn.Proofs
 open Edn.Model Edn.Spec
@@ -18,25 +19,62 @@ theorem readNumber_decimal (cfg : Cfg) (sg ds : Bytes) (neg : Bool) (rest : Byte
       .ok (if (if neg then natOfDigits ds ≤ 9223372036854775808 else natOfDigits ds ≤ 9223372036854775807)
            then .int (if neg then -(natOfDigits ds : Int) else (natOfDigits ds : Int))
            else .bigint neg 10 ds) rest := by
-  sorry
+  obtain ⟨hall, hz | ⟨d, t, rfl, hnz⟩⟩ := CNum.decDigits_cases hd
+  · subst hz
+    have hst := CNum.term_props (CNum.peek_term ht)
+    have h2 := CNum.stopProps2_unpack hst
+    rw [List.append_assoc, CNum.readNumber_sign cfg sg _ neg hs (by rfl)]
+    have hz : natOfDigits [0x30] = 0 := by decide
+    simp only [List.singleton_append, CNum.numBody_zero_aux cfg _ neg rest h2.1, h2.2.1, h2.2.2.1,
+      h2.2.2.2, Bool.and_false, Bool.false_eq_true, ↓reduceIte, CNum.finishNum_term _ ht, hz]
+    cases neg <;> simp
+  · have hst := CNum.term_props (CNum.peek_term ht)
+    have h2 := CNum.stopProps2_unpack hst
+    rw [List.append_assoc, CNum.readNumber_sign cfg sg (d :: t ++ rest) neg hs (hall d (by simp))]
+    rw [CNum.numBody_nonzero cfg _ neg d t rest hall hnz h2.1,
+      CNum.afterMantissa_plain cfg _ neg (d :: t) rest hst, CNum.finishNum_term _ ht,
+      CNum.intOrBig_decimal cfg (d :: t) neg (by simp) hall]
 
 theorem readNumber_decimalN (cfg : Cfg) (sg ds : Bytes) (neg : Bool) (rest : Bytes)
     (hs : SignTok sg neg) (hd : DecDigits ds) (ht : TermStart rest) :
     readNumber cfg (sg ++ ds ++ 0x4E :: rest) = .ok (.bigint neg 10 ds) rest := by
-  sorry
+  have hN : CNum.stopProps (peek (0x4E :: rest)) = true := by
+    show CNum.stopProps 0x4E = true
+    decide
+  obtain ⟨hall, hz | ⟨d, t, rfl, hnz⟩⟩ := CNum.decDigits_cases hd
+  · subst hz
+    rw [List.append_assoc, CNum.readNumber_sign cfg sg _ neg hs (by rfl)]
+    simp only [List.singleton_append, CNum.numBody_zero_aux cfg _ neg _ hN]
+    exact CNum.finishNum_term _ ht
+  · rw [List.append_assoc, CNum.readNumber_sign cfg sg (d :: t ++ 0x4E :: rest) neg hs (hall d (by simp))]
+    rw [CNum.numBody_nonzero cfg _ neg d t _ hall hnz hN,
+      CNum.afterMantissa_N cfg _ neg (d :: t) rest hall, CNum.finishNum_term _ ht]
 
 theorem reads_int (cfg : Cfg) (opts : Opts) (d : Nat) (sg ds : Bytes) (neg : Bool) (hs : SignTok sg neg) (hd : DecDigits ds)
     (hr : if neg then natOfDigits ds ≤ 9223372036854775808 else natOfDigits ds ≤ 9223372036854775807) :
     Reads cfg opts d (.int hdr0 (if neg then -(natOfDigits ds : Int) else (natOfDigits ds : Int))) (sg ++ ds) := by
-  sorry
+  have h1 := CNum.tok_first hs hd []
+  rw [List.append_nil] at h1
+  refine CNum.reads_number cfg opts d (sg ++ ds)
+    (.int (if neg then -(natOfDigits ds : Int) else (natOfDigits ds : Int))) _ h1 ?_ (fun _ => rfl)
+  intro rest ht
+  rw [readNumber_decimal cfg sg ds neg rest hs hd ht, if_pos hr]
 
 theorem reads_bigOverflow (cfg : Cfg) (opts : Opts) (d : Nat) (sg ds : Bytes) (neg : Bool) (hs : SignTok sg neg) (hd : DecDigits ds)
     (hr : ¬ (if neg then natOfDigits ds ≤ 9223372036854775808 else natOfDigits ds ≤ 9223372036854775807)) :
     Reads cfg opts d (.bigint hdr0 neg 10 ds) (sg ++ ds) := by
-  sorry
+  have h1 := CNum.tok_first hs hd []
+  rw [List.append_nil] at h1
+  refine CNum.reads_number cfg opts d (sg ++ ds) (.bigint neg 10 ds) _ h1 ?_ (fun _ => rfl)
+  intro rest ht
+  rw [readNumber_decimal cfg sg ds neg rest hs hd ht, if_neg hr]
 
 theorem reads_bigN (cfg : Cfg) (opts : Opts) (d : Nat) (sg ds : Bytes) (neg : Bool) (hs : SignTok sg neg) (hd : DecDigits ds) :
     Reads cfg opts d (.bigint hdr0 neg 10 ds) (sg ++ ds ++ [0x4E]) := by
-  sorry
+  refine CNum.reads_number cfg opts d (sg ++ ds ++ [0x4E]) (.bigint neg 10 ds) _
+    (CNum.tok_first hs hd [0x4E]) ?_ (fun _ => rfl)
+  intro rest ht
+  rw [List.append_assoc, List.singleton_append]
+  exact readNumber_decimalN cfg sg ds neg rest hs hd ht
 
 end Edn.Proofs
